@@ -35,10 +35,11 @@ class WorldC16(World):
     PROBES = ('reused-object-solve', 'solve-after-failed-solve', 'permuted-twin-compared', 'iter-cap-fired',
               'solver-raise-fired', 'early-stop-oracle-sensitive', 'natural-nonconvergence', 'span>=30', 'rank-deficient-network',
               'trace-species-present', 'loaded-from-thermdat', 'load-read-fault', 'high-pressure', 'low-pressure',
-              'twelve-species', 'four-elements', 'optimality-judged', 'deep-trace-not-judged')
+              'twelve-species', 'four-elements', 'optimality-judged', 'deep-trace-not-judged', 'solver-exit-mode-fired',
+              'thermdat-rewritten-in-place')
     REAL = ('pmutt.equilibrium.Equilibrium (constructor, get_net_comp, from_thermdat)', 'scipy.optimize.minimize(SLSQP)',
             'pmutt.io.thermdat reader/writer', 'pmutt.empirical.nasa.Nasa')
-    SIMULATED = ('solver outcome policy at the pmutt.equilibrium._equilibrium.minimize seam (pass, iteration cap, early stop, raise)',
+    SIMULATED = ('solver outcome policy at the pmutt.equilibrium._equilibrium.minimize seam (pass, iteration cap, early stop, raise, give up with SLSQP exit mode 3-9 part-way)',
                  'disk under from_thermdat (SimFS read faults)', 'clients reusing one Equilibrium object over many (T, P)')
     TRIGGERS = {
         'C16-deep-trace': 'the true equilibrium composition contains a species below 1e-6 mole fraction '
@@ -59,7 +60,7 @@ class WorldC16(World):
             'small_coeff': rng.random() < 0.5,
             'via': rng.choice(['thermdat', 'thermdat', 'list', 'dict']),
             'policy_rate': rng.choice([0.0, 0.0, 0.25, 0.5]),
-            'policies': sorted(rng.sample(['iter_cap', 'raise', 'early_stop'], rng.randint(1, 3))),
+            'policies': sorted(rng.sample(['iter_cap', 'raise', 'early_stop', 'fail_status'], rng.randint(1, 4))),
             'load_fault_rate': rng.choice([0.0, 0.3]),
             'enum_policies': tier == 'thorough' and rng.random() < 0.3,
         }
@@ -154,7 +155,8 @@ class WorldC16(World):
             order = list(range(len(species)))
             rng.shuffle(order)
             return {'c': c, 'op': 'build', 'fault': fault,
-                    'args': {'id': 0, 'species': species, 'feed': feed, 'order': order, 'via': sw['via']}}
+                    'args': {'id': 0, 'species': species, 'feed': feed, 'order': order, 'via': sw['via'],
+                             'rewrite': sw['via'] == 'thermdat' and rng.random() < 0.5}}
         ids = sorted(self.eq)
         k = rng.choice(ids)
         m = self.meta[k]
@@ -174,6 +176,11 @@ class WorldC16(World):
             pol = {'kind': kind}
             if kind == 'iter_cap':
                 pol['n'] = rng.choice([1, 2, 3, 5, 8])
+            if kind == 'fail_status':
+                pol['status'] = rng.choice([8, 8, 9, 4, 5, 6, 7, 3])
+                pol['how'] = rng.choice(['cap', 'null'])
+                pol['n'] = rng.choice([2, 3, 5, 8, 15])
+                pol['frac'] = rng.choice([0.5, 0.1, 0.9])
         return {'c': c, 'op': 'solve', 'args': {'eq': k, 'T': T, 'P': P, 'policy': pol,
                                                'enum': sw['enum_policies'] and rng.random() < 0.3}}
 
@@ -192,6 +199,13 @@ class WorldC16(World):
         fs = self.fs
         if a['via'] == 'thermdat':
             self.ctx.probe('loaded-from-thermdat')
+            if a.get('rewrite'):
+                # a refit loop: the file of the previous iteration (same species, other enthalpies; same length, same
+                # second) was loaded from this path a moment ago
+                self.ctx.probe('thermdat-rewritten-in-place')
+                old = [self._nasa(dict(d, h=d['h'] - 700.0 * (i + 1))) for i, d in enumerate(species)]
+                self.th.write_thermdat(old, filename=fs.path('net%d.dat' % a['id']))
+                self.eqm.Equilibrium.from_thermdat(fs.path('net%d.dat' % a['id']), network)
             self.th.write_thermdat(objs, filename=fs.path('net%d.dat' % a['id']))
             fs.install()
             fs.arm(fault)
@@ -281,7 +295,9 @@ class WorldC16(World):
             out = self._solve(a['eq'], a['T'], a['P'], a.get('policy'))
             if a.get('enum'):
                 for pol in ({'kind': 'iter_cap', 'n': 1}, {'kind': 'iter_cap', 'n': 3}, {'kind': 'iter_cap', 'n': 10},
-                            {'kind': 'raise'}, {'kind': 'early_stop'}, None):
+                            {'kind': 'raise'}, {'kind': 'early_stop'}, {'kind': 'fail_status', 'status': 8, 'how': 'cap', 'n': 4},
+                            {'kind': 'fail_status', 'status': 4, 'how': 'null', 'frac': 0.5},
+                            {'kind': 'fail_status', 'status': 8, 'how': 'null', 'frac': 0.5}, None):
                     self._solve(a['eq'], a['T'], a['P'], pol)
             return out
         raise Skip()
@@ -333,6 +349,8 @@ class WorldC16(World):
             ctx.probe('solver-raise-fired')
         if kind == 'iter_cap' and told_failure:
             ctx.probe('iter-cap-fired')
+        if kind == 'fail_status' and told_failure:
+            ctx.probe('solver-exit-mode-fired')
         if kind is None and told_failure:
             ctx.probe('natural-nonconvergence')
         signals = [w for w in ws if not any(nz in w[1] for nz in NOISE)]
